@@ -154,6 +154,15 @@ func (w *sliceWeb) fieldCell(fa *ssa.FieldAddr) ssa.Value {
 			ds := deepDefs(fa.X, w.fns)
 			if len(ds) == 1 {
 				obj, _ = ds[0].(*ssa.Alloc)
+				if ld, isLd := ds[0].(*ssa.UnOp); isLd && obj == nil && ld.Op == token.MUL {
+					// the pointer is itself kept in a field of a local struct (`batch.queue.pending`): the struct
+					// that every store into that field puts there
+					if _, viaField := ld.X.(*ssa.FieldAddr); viaField {
+						if rs := resolveThroughLocals(ld, w.fns); len(rs) == 1 {
+							obj, _ = rs[0].(*ssa.Alloc)
+						}
+					}
+				}
 			}
 		}
 		if obj != nil && !w.isTracked(obj) {
@@ -229,6 +238,14 @@ func (w *sliceWeb) isTracked(obj *ssa.Alloc) bool {
 			case *ssa.Store:
 				// kept in a local variable (the cell of `q := &queue{}` when a literal captures q)
 				cell, isCell := x.Addr.(*ssa.Alloc)
+				if fa, isFA := x.Addr.(*ssa.FieldAddr); isFA && x.Val == v {
+					// kept in a field of another local struct that is tracked itself (`batch := &emittedBatch{queue: q}`):
+					// every read of that field is a use of the pointer
+					if !w.holderFieldUses(fa, func(ld ssa.Value) bool { return okUse(ld, depth+1) }) {
+						return false
+					}
+					break
+				}
 				if x.Val != v || !isCell {
 					if x.Addr == v {
 						break // a store through the pointer itself (whole-struct assignment): not followed, not an escape
@@ -257,7 +274,73 @@ func (w *sliceWeb) isTracked(obj *ssa.Alloc) bool {
 	}
 	t := okUse(obj, 0)
 	w.tracked[obj] = t
+	if !t {
+		// field addresses attributed to the struct while it was provisionally taken as tracked
+		for k, a := range w.baseAlloc {
+			if a == obj {
+				delete(w.baseAlloc, k)
+			}
+		}
+	}
 	return t
+}
+
+// holderFieldUses: fa is a field of a tracked local struct (the holder) into which a pointer is stored.  Every
+// address of that field of the holder taken in the web's functions must only be stored to and loaded from, and
+// every load must satisfy okLoad.  False if the holder is not tracked or some field address cannot be attributed.
+func (w *sliceWeb) holderFieldUses(fa *ssa.FieldAddr, okLoad func(ld ssa.Value) bool) bool {
+	rep := w.fieldCell(fa)
+	if rep == nil {
+		return false
+	}
+	holder := w.baseAlloc[fa.X]
+	structT := func(g *ssa.FieldAddr) types.Type {
+		if pt, ok := g.X.Type().Underlying().(*types.Pointer); ok {
+			return pt.Elem()
+		}
+		return nil
+	}
+	want := structT(fa)
+	ok := true
+	for _, f := range w.fns {
+		ssau.Instrs(f, func(in ssa.Instruction) {
+			g, isFA := in.(*ssa.FieldAddr)
+			if !isFA || !ok || g.Field != fa.Field || want == nil || structT(g) == nil || !types.Identical(structT(g), want) {
+				return
+			}
+			if w.fieldCell(g) != rep {
+				// a field address that may or may not be the holder's: only fine if it certainly is not
+				if a, isAl := g.X.(*ssa.Alloc); isAl && a != holder {
+					return
+				}
+				for _, d := range deepDefs(g.X, w.fns) {
+					if d == ssa.Value(holder) {
+						ok = false
+					}
+					if _, isAl := d.(*ssa.Alloc); !isAl {
+						ok = false
+					}
+				}
+				return
+			}
+			for _, r := range ssau.Referrers(g) {
+				switch y := r.(type) {
+				case *ssa.DebugRef:
+				case *ssa.Store:
+					if y.Addr != ssa.Value(g) {
+						ok = false
+					}
+				case *ssa.UnOp:
+					if y.Op != token.MUL || !okLoad(y) {
+						ok = false
+					}
+				default:
+					ok = false
+				}
+			}
+		})
+	}
+	return ok
 }
 
 // addrCell: the variable cell an address denotes for this web (nil if it is not one).
@@ -746,14 +829,38 @@ func (w *sliceWeb) members(v ssa.Value) []ssa.Value {
 // lenGuardOnly: block b runs on every trip through loop L except when a
 // `len(x) > 0`-style test on a value of web `of` says the slice is empty.
 func lenGuardOnly(w *sliceWeb, of ssa.Value, b *ssa.BasicBlock, L *flow.Loop) bool {
-	domAll := func(x *ssa.BasicBlock) bool {
+	return lenGuardOnlyDom(w, of, b, func(x *ssa.BasicBlock) bool {
 		for _, latch := range L.Latch {
 			if !x.Dominates(latch) {
 				return false
 			}
 		}
 		return true
+	})
+}
+
+// lenGuardOnlyFn: block b runs exactly once on every way through its function (a helper without a loop around b)
+// except when a `len(x) > 0`-style test on a value of web `of` says the slice is empty.
+func lenGuardOnlyFn(w *sliceWeb, of ssa.Value, b *ssa.BasicBlock) bool {
+	if flow.InCycle(b) {
+		return false
 	}
+	return lenGuardOnlyDom(w, of, b, func(x *ssa.BasicBlock) bool {
+		n := 0
+		for _, blk := range x.Parent().Blocks {
+			if _, isRet := blk.Instrs[len(blk.Instrs)-1].(*ssa.Return); isRet {
+				n++
+				if !x.Dominates(blk) {
+					return false
+				}
+			}
+		}
+		return n > 0
+	})
+}
+
+// lenGuardOnlyDom: lenGuardOnly for a given meaning of "runs on every trip" (domAll).
+func lenGuardOnlyDom(w *sliceWeb, of ssa.Value, b *ssa.BasicBlock, domAll func(x *ssa.BasicBlock) bool) bool {
 	if domAll(b) {
 		return true
 	}
